@@ -27,6 +27,11 @@ def chunkings(chars, rng, limit):
                 else: cur += c
             ps.append(cur); outs.append(ps)
         outs.append([''.join(chars)])
+        # a short piece, then a long one (>= 64 bytes), then the rest: buffering shortcuts live here
+        for cut in (1, 3, 7):
+            for big in (63, 64, 65, 200):
+                if len(chars) > cut + big:
+                    outs.append([''.join(chars[:cut]), ''.join(chars[cut:cut + big]), ''.join(chars[cut + big:])])
     if len(outs) > limit:
         outs = rng.sample(outs, limit)
     return outs
@@ -60,11 +65,16 @@ def gen_cases(pid, tier, rng):
         strings += [list(t) for t in itertools.product(ALPHA, repeat=l)]
     for _ in range(300 if tier == "quick" else 3000):
         n = rng.choice([6, 8, 17, 64, 300, 4096 if tier != "quick" else 1000])
-        strings.append([rng.choice(ALPHA + ['b', ' ', '\n', '\0', '\x7f', 'ÿ']) for _ in range(rng.randint(4, n))])
+        strings.append([rng.choice(ALPHA + ['b', ' ', '\n', '\0', '\x7f', 'ÿ', ' ', '!', '\t', 'c', 'd']) for _ in range(rng.randint(4, n))])
+    # a special byte right after a byte below it, at every position of an 8/16-byte window (word-at-a-time scans)
+    for sp in '"&\'<>':
+        for pre in ' !\n\t#~a':
+            for pos in range(0, 17):
+                strings.append(list("x" * pos + pre + sp + "y" * (18 - pos)))
     for chars in strings:
         text = ''.join(chars)
         nb = len(html.escape(text).encode())
-        chs = chunkings(chars, rng, 4 if len(chars) > 3 else 8)
+        chs = chunkings(chars, rng, 6 if len(chars) > 3 else 8)
         if len(chars) <= 3:
             scheds = schedules_for(nb, rng, tier)
             if len(chars) == 3: scheds = rng.sample(scheds, min(len(scheds), 60 if tier == "quick" else 400))
@@ -112,6 +122,57 @@ def oracle(case, out, full):
         if f[3] != "101": return "HtmlBuffer PartialEq is not byte equality: " + f[3]
     return None
 
+def template_level(chk, oracle_fail, disagree, tier):
+    """the generated call `<expr>.to_html(_ructe_out_.by_ref())?` and the OUT_DIR copy of the helper:
+    @expressions of Display type -- parameters, method results, string literals spelling the special
+    characters directly and through every escape rustc accepts -- must render escaped"""
+    import tmpl_checks, render_lib
+    from tmpl_gen import DECL, ARGSETS, rust_args, esc
+    head = "@(" + DECL + ")\n"
+    lits = []
+    spell = {"<": ["<", "\\x3c", "\\u{3c}", "\\u{003C}"], ">": [">", "\\x3e", "\\u{3e}"], "&": ["&", "\\x26", "\\u{26}"],
+             '"': ['\\"', "\\x22", "\\u{22}"], "'": ["'", "\\'", "\\x27", "\\u{27}"]}
+    for ch, ways in spell.items():
+        for w in ways:
+            lits.append(('"a%sb"' % w, "a" + ch + "b"))
+            lits.append(('"%s"' % w, ch))
+    lits += [('"<script>alert(1)</script>"', "<script>alert(1)</script>"), ('"R\\u{26}D \\x3cb\\x3e"', "R&D <b>"), ('"plain"', "plain"), ('"\\n\\t\\\\"', "\n\t\\")]
+    exprs = [(l, (lambda a, v=v: v)) for l, v in lits]
+    exprs += [("s", lambda a: a["s"]), ("s.to_uppercase()", lambda a: a["s"].upper()), ('format!("<{}>", s)', lambda a: "<%s>" % a["s"]),
+              ("&s", lambda a: a["s"]), ('s.replace("a", "\\"")', lambda a: a["s"].replace("a", '"')), ('(if b { "<&>" } else { "\\"" })', lambda a: "<&>" if a["b"] else '"')]
+    T = []
+    for i, (src, f) in enumerate(exprs):
+        T.append(("e%d_html" % i, (head + "|@" + src + "|").encode(), ["|" + esc(f(a)) + "|" for a in ARGSETS]))
+    named = [(n, s0) for n, s0, _ in T]
+    impl, model = tmpl_checks.compile_pairs(named)
+    for (n, s0, _), a, m in zip(T, impl, model):
+        chk.count(s0, True)
+        if a != m: disagree.append((("T", [s0.decode("utf8", "replace")], []), a[:400], m[:400]))
+    files = {"t/%s.rs.html" % n[:-5]: s0 for n, s0, _ in T}
+    calls = [("templates::%s(&mut sink, %s)" % (n, rust_args(a)), "-") for n, _, _ in T for a in ARGSETS]
+    rb = render_lib.render_batch(files, calls)
+    # the helper is copied verbatim into OUT_DIR
+    run = rb.get("run") or {}
+    snap = run.get("after") or {}
+    utils = (snap.get(b"templates/_utils.rs") or (None, ""))[0]
+    if utils is not None and utils != open(os.path.join(REPO, "src/templates/utils.rs"), "rb").read():
+        oracle_fail.append((("T", ["_utils.rs"], []), "-", "OUT_DIR/templates/_utils.rs is not a verbatim copy of src/templates/utils.rs"))
+    if not rb["ok"]:
+        oracle_fail.append((("T", [T[0][1].decode()], []), rb["error"][:300], "templates with @expressions of Display type do not build: " + rb["error"][:600]))
+        return
+    k = 0
+    for n, s0, exp in T:
+        bad = None
+        for ai, e in enumerate(exp):
+            r = rb["results"][k]; k += 1
+            if bad is None and (r is None or r[1] != "ok" or r[0] != e.encode()):
+                bad = (r, e)
+        if bad:
+            r, e = bad
+            oracle_fail.append((("T", [s0.decode("utf8", "replace")], []), (r[0].decode("utf8", "replace") if r else "no result"),
+                                "an @expression of Display type reached the sink unescaped / altered: got %r, expected %r" % (r[0].decode("utf8", "replace") if r else None, e)))
+    chk.notes["template_level_expressions"] = len(T)
+
 def run(pid, tier):
     chk = Check(pid, tier)
     info = ensure_all()
@@ -147,9 +208,11 @@ def run(pid, tier):
                        "non-trivial = text has a special byte and (several pieces or a non-empty schedule); distinct by case line") % (
                         3 if tier == "quick" else 5, 3 if tier == "quick" else 4, "D" if pid == "C02" else "H,B,HB,BB,D")
     chk.notes["result_histogram"] = hist
+    chk.assumptions += ["Display impls are well-behaved (stop at the first fmt error)", "sinks follow io::Write's contract and do not override write_all"]
+    if pid == "C02":
+        template_level(chk, oracle_fail, disagree, tier)
     chk.notes["disagreements_model_vs_impl"] = len(disagree)
     chk.notes["oracle_failures"] = len(oracle_fail)
-    chk.assumptions += ["Display impls are well-behaved (stop at the first fmt error)", "sinks follow io::Write's contract and do not override write_all"]
     if oracle_fail:
         oracle_fail.sort(key=lambda x: len(line_of(x[0])))
         c, a, why = oracle_fail[0]
